@@ -139,6 +139,52 @@ Proof.
     destruct (enter_flat h (S (length h)) s); [discriminate|discriminate].
 Qed.
 
+Theorem insert_cb_h_keeps_ctrace_b h lvl new var preds Ss names h' strict :
+  insert_cb_h h lvl new var preds Ss names = XOk h' ->
+  walk_pre_cbh h lvl new var preds Ss names = true ->
+  forall n e e' ds,
+    (exists b p, find h n = Some b /\ n_kind b = KOrig p) ->
+    E (Fc var) e e' ->
+    CTrace h (resolve_flat h) strict n e ds -> CTrace h' (resolve_flat h') strict n e' ds.
+Proof.
+  intros Hcb Hpre. unfold walk_pre_cbh in Hpre.
+  repeat (apply andb_true_iff in Hpre as [Hpre ?]).
+  match goal with H : forallb (resolves h) Ss = true |- _ => rename H into HS end.
+  match goal with H : forallb (fun n => is_region n || forallb (resolves h) (n_jt n)) h = true |- _ => rename H into HR end.
+  match goal with H : forallb (leaf_okb names var) h = true |- _ => rename H into HL end.
+  match goal with H : match find h new with None => true | Some _ => false end = true |- _ => rename H into Hnew end.
+  match goal with H : nodupb names = true |- _ => rename H into Hnd end.
+  match goal with H : match find h lvl with Some nl => is_region nl | None => false end = true |- _ => rename H into Hlvl end.
+  match goal with H : forallb _ preds = true |- _ => rename H into Hpreds end.
+  match goal with H : forallb _ names = true |- _ => rename H into Hnames end.
+  apply (insert_cb_h_keeps_ctrace h lvl new var preds Ss names h' strict Hcb).
+  - apply depth_rank. exact Hpre.
+  - destruct (find h lvl) as [nl|]; [eauto|discriminate].
+  - intros p Hp. rewrite forallb_forall in Hpreds. specialize (Hpreds p Hp).
+    apply andb_true_iff in Hpreds as [H1 H2]. apply negb_true_iff in H1. apply Z.eqb_neq in H1. split; [exact H1|].
+    destruct (find h p) as [n0|]; [|discriminate]. apply Z.eqb_eq in H2. eauto.
+  - split; [apply nodupb_sound; exact Hnd|]. intros a Ha. rewrite forallb_forall in Hnames. specialize (Hnames a Ha).
+    apply andb_true_iff in Hnames as [H12 H3]. apply andb_true_iff in H12 as [H1 H2].
+    split; [destruct (find h a); [discriminate|reflexivity]|]. split.
+    + apply negb_true_iff in H2. apply zmem_false in H2. exact H2.
+    + apply negb_true_iff in H3. apply Z.eqb_neq in H3. exact H3.
+  - destruct (find h new); [discriminate|reflexivity].
+  - intros x n0 Hx Hl. pose proof (find_forallb h _ HL x n0 Hx) as H. unfold leaf_okb in H. rewrite Hl in H. cbn [orb] in H.
+    apply andb_true_iff in H as [H12 H3]. apply andb_true_iff in H12 as [H1 H2].
+    split; [apply nodupb_sound; exact H1|]. split.
+    + intros a Ha. rewrite forallb_forall in H2. specialize (H2 a Ha). apply negb_true_iff in H2. apply zmem_false in H2. exact H2.
+    + split.
+      * intros c v tbl Ek. rewrite Ek in H3. apply andb_true_iff in H3 as [A B]. split; [apply nodupb_sound; exact A|].
+        apply negb_true_iff in B. apply Z.eqb_neq in B. exact B.
+      * intros a Ek p Hp. rewrite Ek in H3. rewrite forallb_forall in H3. specialize (H3 p Hp).
+        apply negb_true_iff in H3. apply Z.eqb_neq in H3. exact H3.
+  - intros x n0 t Hx Hl Ht. pose proof (find_forallb h _ HR x n0 Hx) as H. cbv beta in H. rewrite Hl in H. cbn [orb] in H.
+    rewrite forallb_forall in H. specialize (H t Ht). unfold resolves in H.
+    destruct (enter_flat h (S (length h)) t); [discriminate|discriminate].
+  - intros s Hs. rewrite forallb_forall in HS. specialize (HS s Hs). unfold resolves in HS.
+    destruct (enter_flat h (S (length h)) s); [discriminate|discriminate].
+Qed.
+
 (* ---------- region extraction ---------- *)
 Definition good_b (hd rname : name) (n : node) : bool :=
   is_region n ||
